@@ -32,13 +32,13 @@ pub fn lanes_of(id: &str) -> Vec<(&'static str, LaneFn)> {
         "C02" => vec![("requests", c02::requests), ("modifiers", c02::modifiers), ("composed_requests", c02::composed_requests), ("cloned_handles", c02::cloned_handles)],
         "C03" => vec![("responses", c03::responses), ("helpers", c03::helpers), ("paged_results", c03::paged_results), ("starttls_results", c03::starttls_results)],
         "C04" => vec![("cuts", c04::cuts), ("write_errors", c04::write_errors), ("handle_drops", c04::handle_drops), ("real_transports", c04::real_transports), ("paged_connection_loss", c16::paging_faults), ("malformed_results", c04::malformed_results), ("late_readers", c04::late_readers), ("unbind_under_backpressure", c04::unbind_under_backpressure)],
-        "C05" => vec![("wrap", c05::wrap), ("threads", c05::threads)],
+        "C05" => vec![("wrap", c05::wrap), ("threads", c05::threads), ("boundaries", c05::boundaries)],
         "C06" => vec![("decoder_prefixes", c06::decoder_prefixes), ("partitions", c06::partitions), ("exhaustive_splits", c06::exhaustive_splits), ("bursts", c06::bursts)],
         "C07" => vec![("trees", c07::trees), ("integers", c07::integers), ("nonminimal", c07::nonminimal), ("typed_trees", c07::typed_trees)],
         "C08" => vec![("generated", c08::generated), ("exhaustive", c08::exhaustive), ("mutated", c08::mutated), ("rejection", c08::rejection_classes)],
         "C09" => vec![("exhaustive_short", c09::exhaustive_short), ("exhaustive_meta", c09::exhaustive_meta), ("random", c09::random)],
         "C10" => vec![("streams", c10::streams), ("search_collect", c10::search_collect), ("sync_streams", c10::sync_streams), ("paged_early_finish", c10::paged_early_finish)],
-        "C11" => vec![("decoder", c11::decoder), ("driver", c11::driver), ("stack", c11::stack)],
+        "C11" => vec![("decoder", c11::decoder), ("driver", c11::driver), ("stack", c11::stack), ("starttls_garbage", c11::starttls_garbage)],
         "C12" => vec![("timeouts", c12::timeouts), ("stalled_driver", c12::stalled_driver)],
         "C13" => vec![("histories", c13::histories), ("long_histories", c13::long_histories), ("tls_connections", c13::tls_connections)],
         "C14" => vec![("differential", c14::differential)],
@@ -65,7 +65,7 @@ pub fn run(ctx: &Ctx, id: &str, only: Option<&str>) -> Vec<Value> {
             }
         }
         // lanes that need child processes or real sockets cannot run inside the Miri interpreter
-        if cfg!(miri) && matches!(name, "stack" | "real_transports" | "sync_streams" | "tls_connections" | "starttls_strays" | "starttls_results") {
+        if cfg!(miri) && matches!(name, "stack" | "real_transports" | "sync_streams" | "tls_connections" | "starttls_strays" | "starttls_results" | "starttls_garbage") {
             continue;
         }
         let t = std::time::Instant::now();
